@@ -1009,7 +1009,7 @@ class HistoryGen:
         full = len(self.rn.pool) >= self.max_pool
         table = [("leaf", 8), ("new_slist", 5), ("new_sdict", 5), ("new_value", 5), ("decl_list", 7),
                  ("decl_dict", 7), ("decl_any", 3), ("decl_list_type", 2), ("refine", 8), ("add", 4), ("or", 3),
-                 ("subst", 9), ("from_native", 6), ("make_required", 4), ("validate", 5), ("errors", 3),
+                 ("subst", 9), ("from_native", 6), ("make_required", 6), ("validate", 5), ("errors", 3),
                  ("validate_or_fail", 2), ("repr", 2), ("represent", 1), ("iter", 2), ("contains", 2),
                  ("getitem", 4), ("eq", 2), ("fake", 5), ("mutate", 30), ("again", 8)]
         if full:
@@ -1154,8 +1154,15 @@ class HistoryGen:
         keys = None
         if c < 0.7:
             sch = self.rn.env[s]
-            ks = [k for k in sch if k is not ...] if isinstance(sch, DictSchema) else []
-            ks = [k for k in ks if r.random() < 0.6]
+            allk = [k for k in sch if k is not ...] if isinstance(sch, DictSchema) else []
+            ks = [k for k in allk if r.random() < 0.6]
+            # a strict, non-empty subset that contains an optional key whenever the schema has one
+            # (the case in which the result differs from the source in some entries only)
+            opt = [k for k in allk if sch.props.keys[k][1]] if isinstance(sch, DictSchema) and sch.props.keys is not Nil else []
+            if opt and len(allk) > 1 and r.random() < 0.6:
+                o = r.choice(opt)
+                rest = [k for k in allk if k != o]
+                ks = [o] + [k for k in rest[:-1] if r.random() < 0.5]
             if r.random() < 0.1:
                 ks.append("nonexistent")
             keys = self.value_spec(ks)
